@@ -1234,6 +1234,7 @@ impl Union for AdjacencyMap {
     /// The time complexity is `O((v1 + v2) log (v1 + v2) + U)`, where `v1` is
     /// the order of `self`, `v2` is the order of `other`, and `U` is the
     /// number of arcs in the union of `self` and `other`.
+    #[allow(clippy::too_many_lines)]
     fn union(&self, other: &Self) -> Self {
         let lhs_vec = self
             .arcs
@@ -1308,6 +1309,9 @@ impl Union for AdjacencyMap {
                                         j += 1;
                                     }
                                     Ordering::Equal => {
+                                        let a = read(lhs_ptr.add(i));
+                                        let b = read(rhs_ptr.add(j));
+
                                         let union_set =
                                             union_sets_unsafe(&a.1, &b.1);
 
@@ -1334,6 +1338,13 @@ impl Union for AdjacencyMap {
                 merged_entries.extend(h.join().unwrap());
             }
         });
+
+        // Every entry has been moved out; free the buffers without dropping
+        // the entries a second time.
+        unsafe {
+            ManuallyDrop::into_inner(lhs_vec).set_len(0);
+            ManuallyDrop::into_inner(rhs_vec).set_len(0);
+        }
 
         merged_entries.sort_unstable_by_key(|&(k, _)| k);
 
